@@ -23,7 +23,7 @@ try:
             rows.append((m['id'], m['check'], 'PATCH-DOES-NOT-APPLY', 0)); ok = False; continue
         open(p, 'w').write(orig.replace(m['old'], m['new']))
         t0 = time.time()
-        e = dict(os.environ, VERIF_DASSH_SRC=copy)
+        e = dict(os.environ, VERIF_DASSH_SRC=copy, VERIF_OUT_DIR=os.path.join(base, '_vout'))
         r = subprocess.run([os.path.join(HERE, 'check'), m['check'], '--tier', 'quick'], env=e,
                            stdout=subprocess.PIPE, stderr=subprocess.STDOUT)
         open(p, 'w').write(orig)
